@@ -1,9 +1,112 @@
+import ScenicModel.Model.Rewrites
+import ScenicModel.Model.Peg
+import ScenicModel.Gen.RewriteData
+import ScenicModel.Gen.Grammar
 import Driver.Util
-/-! line protocol for the C09 model (stub: replaced when the property's model is built) -/
+/-! line protocol for the C09 models (data = what was regenerated from /repo)
+
+    rw  <tree tokens>                         -> the tree after `Scenic.Rewrites.compile Gen.cfg`, or `reject`
+    peg <ci 0|1> <erased 0|1> <fuel> <kind:lit>*   -> result of `Scenic.Peg.parse` on the generated grammar
+                                                 (erased = 1: the grammar with every guarded alternative erased)
+    words                                     -> the literal table (so that the harness numbers tokens the same way)
+
+    tree tokens:  "(Tag" loc child* ")"   loc = "-" | "?" | "<lineno> <end_lineno>" ;  "[" child* "]" ;  atom  -/
 namespace Driver.C09
-open Driver
+open Driver Scenic.Rewrites
+
+/-! ### trees -/
+
+partial def parseVal : List String → Option (T × List String)
+  | [] => none
+  | tok :: rest =>
+    if tok == "[" then parseItems rest
+    else if tok.startsWith "(" then
+      let tag := (tok.drop 1).toString
+      match rest with
+      | "-" :: r => (parseItems' r ")").map fun (fs, r') => (.node tag .noattr fs, r')
+      | "?" :: r => (parseItems' r ")").map fun (fs, r') => (.node tag .missing fs, r')
+      | l :: el :: r =>
+        match l.toNat?, el.toNat? with
+        | some a, some b => (parseItems' r ")").map fun (fs, r') => (.node tag (.at a b) fs, r')
+        | _, _ => none
+      | _ => none
+    else if tok.startsWith "s:" then some (.ident (tok.drop 2).toString, rest)
+    else some (.atom tok, rest)
+where
+  parseItems (ts : List String) : Option (T × List String) := parseItems' ts "]"
+  parseItems' (ts : List String) (close : String) : Option (T × List String) :=
+    match ts with
+    | [] => none
+    | t :: r =>
+      if t == close then some (.nil, r)
+      else match parseVal ts with
+        | some (v, r1) =>
+          match parseItems' r1 close with
+          | some (vs, r2) => some (.cons v vs, r2)
+          | none => none
+        | none => none
+
+partial def showT (t : T) (acc : Array String) : Array String :=
+  match t with
+  | .atom s => acc.push s
+  | .ident s => acc.push ("s:" ++ s)
+  | .nil => (acc.push "[").push "]"
+  | .cons _ _ => (showItems t (acc.push "[")).push "]"
+  | .node tag loc fs =>
+    let acc := acc.push ("(" ++ tag)
+    let acc := match loc with
+      | .noattr => acc.push "-"
+      | .missing => acc.push "?"
+      | .at l el => (acc.push (toString l)).push (toString el)
+    (showItems fs acc).push ")"
+where
+  showItems (t : T) (acc : Array String) : Array String :=
+    match t with
+    | .cons h r => showItems r (showT h acc)
+    | _ => acc
+
+def doRw (ts : List String) : String :=
+  match parseVal ts with
+  | some (t, []) =>
+    match compile Scenic.Gen.RewriteData.cfg t with
+    | some t' => " ".intercalate (showT t' #[]).toList
+    | none => "reject"
+  | _ => "bad-tree"
+
+/-! ### PEG -/
+open Scenic.Peg in
+def parseTok (s : String) : Option Tok :=
+  match s.splitOn ":" with
+  | [k, l] => do
+    let a ← k.toNat?; let b ← l.toNat?; pure ⟨a, b⟩
+  | _ => none
+
+open Scenic.Peg in
+def showEv : Ev → String
+  | .t i => s!"t{i}"
+  | .o l => s!"o{l}"
+  | .c => "c"
+
+open Scenic.Peg in
+def showRes : Res → String
+  | .oof => "oof" | .err => "err" | .fail => "fail" | .cutfail => "cutfail"
+  | .ok p c evs => s!"ok {p} {if c then 1 else 0} " ++ " ".intercalate (evs.map showEv)
+
+open Scenic.Peg Scenic.Gen.Grammar in
+def erasedGrammar : Grammar := eraseGrammar mustFailMask noForcedMask scenicWordMask false grammar
+
+open Scenic.Peg Scenic.Gen.Grammar in
+def doPeg (ci erased fuel : String) (ts : List String) : String :=
+  match fuel.toNat?, ts.mapM parseTok with
+  | some f, some toks =>
+    let g := if erased == "1" then erasedGrammar else grammar
+    showRes (parse g toks.toArray (ci == "1") f start)
+  | _, _ => "bad-tokens"
 
 def handle : List String → String
+  | "rw" :: ts => doRw ts
+  | "peg" :: ci :: erased :: fuel :: ts => doPeg ci erased fuel ts
+  | ["words"] => " ".intercalate (Scenic.Gen.Grammar.lits.toList.map fun s => toHex (s.toUTF8.toList.map (·.toNat)))
   | _ => "bad-op"
 
 end Driver.C09
